@@ -396,19 +396,21 @@ class Signal(object):
         """
 
         mot = np.array(self.values)  # average the original samples, not the ones already replaced
+        averaged = np.zeros(len(mot), dtype=float)  # the means of integer samples are not integers
 
         for i in range(len(mot)):
             if i < width / 2:
                 cc = i + int(width / 2) + 1
-                self._values[i] = np.mean(mot[:cc])
+                averaged[i] = np.mean(mot[:cc])
             elif i > len(mot) - width / 2:
                 cc = i - int(width / 2)
-                self._values[i] = np.mean(mot[cc:])
+                averaged[i] = np.mean(mot[cc:])
             else:
                 cc1 = i - int(width / 2)
                 cc2 = i + int(width / 2) + 1
-                self._values[i] = np.mean(mot[cc1:cc2])
+                averaged[i] = np.mean(mot[cc1:cc2])
 
+        self._values = averaged
         self.clear_cache()
 
 
